@@ -57,4 +57,28 @@ theorem finish_memory_dict_eq (c : Call) (mem : Dict Res) :
   unfold finish_memory_dict
   by_cases hm : c.memory = .off <;> simp [hm]
 
+/-- `finish_search` reports the progress bar's best score, its position decoded, and that value as a parameter dictionary -/
+theorem finish_best_eq (sp : Space) (c : Call) (d d' : DState σ) (cs : CState) (steps : Nat) (r : CallResult)
+    (h : finishSearch sp c d cs steps = .ok (d', r)) :
+    finish_best sp cs.pbar.scoreBest cs.pbar.posBest = .ok (r.bestScore, r.bestValue, r.bestPara) := by
+  unfold finishSearch at h
+  unfold finish_best
+  simp only [bind, Except.bind, pure, Except.pure] at h ⊢
+  cases hp : cs.pbar.posBest with
+  | none =>
+    rw [hp] at h
+    simp only [Except.ok.injEq, Prod.mk.injEq] at h
+    obtain ⟨_, rfl⟩ := h
+    rfl
+  | some p =>
+    rw [hp] at h
+    simp only at h ⊢
+    cases hv : position2value sp.dims p with
+    | error e => rw [hv] at h; simp at h
+    | ok v =>
+      rw [hv] at h
+      simp only [Except.ok.injEq, Prod.mk.injEq] at h
+      obtain ⟨_, rfl⟩ := h
+      rfl
+
 end GFO.Gen.Mem
